@@ -2168,6 +2168,10 @@ func (cs Conditions) inlineTagFilter(tags map[string]TagDetails) ConditionsSet {
 			continue
 		}
 		tagConditionsSet := td.Conditions.InlineTagFilters(tags)
+		if len(tagConditionsSet) == 0 {
+			// the definition matches nothing (Parse reports that as no conditions at all)
+			tagConditionsSet = ConditionsSet{Conditions{&impossibleCondition}}
+		}
 		//TODO: rename subqueries in tagConditionsSet to not collide with the normal query
 		if c.Accept&uncertain == TagConditionAcceptUncertainFailing {
 			tagConditionsSet = tagConditionsSet.invert()
